@@ -329,11 +329,55 @@ chain.cname = 'PinModel.calculate_temperatures/chain'
 chain.run_kw = dict(check_div=False)
 
 
+def gap_start(S, cfg):
+    """the constants and the first iterate of the real calc_fuel_surf_temp (its loop switched off): the first iterate is
+    the gap conduction solve with the radiation exchange evaluated at equal fuel and clad temperatures, where it vanishes
+    - k(T_clad) (T_f - T_clad) / dr = q''  - so at zero power the fuel surface is at the clad temperature whatever the
+    emissivity; the loop body (gap_body) then works with the same constants."""
+    from dassh import pin_model
+    pm = _pin(S, gap=True, tdep=True)
+    q = S.nonneg('q', 0.0, 400.0)
+    dz = S.pos('dz', 0.001, 0.02)
+    T_clad = S.pos('T_clad', 600.0, 1000.0)
+    pi = np.pi if S.mode != 'sym' else Sym(core.CTX.var('PI', kind='pos', lo=math.pi, hi=math.pi))
+    arr = (lambda x: np.array([x], dtype=object if S.mode == 'sym' else float))
+    real_np = pin_model.np
+
+    class _NoLoop:
+        def __getattr__(self, k):
+            return getattr(real_np, k)
+
+        def max(self, *a, **k):
+            return 0.0                      # the convergence test is met at once: the first iterate is returned
+    with patched((pin_model, 'np', _NoLoop())):
+        Tf = pm.calc_fuel_surf_temp(arr(q), dz, arr(T_clad), 1e-6)[0]
+    dr, rf = pm.gap['dr'], pm.fuel['r'][-1, 1]
+    S.eq('gap.first_iterate', pm.gap['k'](T_clad) * (Tf - T_clad) / dr, q / (2 * pi * dz * rf))
+    S.eq('canary.gap_first_iterate_is_clad', Tf, T_clad, canary=True)
+    # ... and one pass through the real loop from there: conduction with the mean conductivity carries the pellet's heat
+    # flux minus the net radiation e sigma (T_first^4 - T_clad^4) - with the emissivity on BOTH terms
+    calls = []
+
+    class _OneLoop(_NoLoop):
+        def max(self, *a, **k):
+            calls.append(1)
+            return 1.0 if len(calls) == 1 else 0.0
+    with patched((pin_model, 'np', _OneLoop())):
+        Tf2 = pm.calc_fuel_surf_temp(arr(q), dz, arr(T_clad), 1e-6)[0]
+    kbar = (pm.gap['k'](Tf) + pm.gap['k'](T_clad)) / 2
+    S.eq('gap.second_iterate', kbar * (Tf2 - T_clad) / dr,
+         q / (2 * pi * dz * rf) + pm.fuel['e'] * pin_model._SBCONST * (T_clad ** 4 - Tf ** 4))
+
+
+gap_start.cname = 'PinModel.calc_fuel_surf_temp/constants'
+gap_start.run_kw = dict(check_div=False)
+
+
 def configs(tier):
     out = [(whole, dict(n_pin=1)), (whole, dict(n_pin=1, annular=True)), (clad_body, dict()), (gap_body, dict()),
            (fuel_body, dict()), (fuel_body, dict(annular=True)), (coolant_weights, dict(n_ring=2)),
            (coolant_weights, dict(n_ring=3)),
-           (loop_exit, dict(loop='clad')), (loop_exit, dict(loop='gap')), (loop_exit, dict(loop='fuel')), (chain, dict())]
+           (loop_exit, dict(loop='clad')), (loop_exit, dict(loop='gap')), (loop_exit, dict(loop='fuel')), (chain, dict()), (gap_start, dict())]
     if tier == 'thorough':
         out += [(whole, dict(n_pin=2)), (coolant_weights, dict(n_ring=4))]
     return out
